@@ -38,6 +38,18 @@ def dict_diff(a: Any, b: Any, path: str = "obs") -> List[str]:
     return []
 
 
+def draw_seed(rng: np.random.Generator) -> int:
+    """Seeds are biased towards boundary values (0 is falsy in Python, 2**31-1 is the int32 edge)."""
+    r = rng.random()
+    if r < 0.3:
+        return 0
+    if r < 0.4:
+        return 1
+    if r < 0.45:
+        return 2**31 - 1
+    return int(rng.integers(0, 2**31 - 1))
+
+
 def legal_action_from_obs(adapter: Any, env: Any, obs: Any, rng: np.random.Generator) -> Any:
     m = adapter.env_mask(obs) if adapter.mask_mode else None
     if m is None or not m.any() or rng.random() < 0.2:
@@ -328,10 +340,10 @@ def generate_and_run(a: AdaptSys, rng: np.random.Generator, stats: Stats) -> Tup
     try:
         if a.kind == "gym":
             if rng.random() < 0.5:
-                emit(["seed", int(rng.integers(0, 10000))])
+                emit(["seed", draw_seed(rng)])
                 emit(["reset", None])
             else:
-                emit(["reset", int(rng.integers(0, 10000))])
+                emit(["reset", draw_seed(rng)])
         elif a.kind == "dm":
             emit(["reset", None])
         else:
@@ -346,10 +358,10 @@ def generate_and_run(a: AdaptSys, rng: np.random.Generator, stats: Stats) -> Tup
             if r < fault_p:
                 which = rng.random()
                 if a.kind == "gym" and which < 0.3:
-                    emit(["seed", int(rng.integers(0, 10000))])
+                    emit(["seed", draw_seed(rng)])
                     emit(["reset", None])
                 elif a.kind == "gym" and which < 0.6:
-                    emit(["reset", int(rng.integers(0, 10000))])
+                    emit(["reset", draw_seed(rng)])
                 else:
                     emit(["reset", None if a.kind != "m2s" else int(rng.integers(0, 2**31 - 1))])
                 continue
